@@ -295,20 +295,60 @@ func c19NewKids(caps []capsT) ([]*c19Child, *int64) {
 	return kids, sh
 }
 
+// c19Shape, when set, makes the next session NEST its children: consecutive groups of the given sizes; a group of two
+// or more children becomes a multi reporter of its own (same flavour) that is handed to the outer one as ONE child.
+// A multi reporter is a reporter, so this is an ordinary configuration; every call reaches the same recording children
+// in the same order as in the flat list, and the conjunction of capabilities is the same: the model stays flat.
+var c19Shape []int
+
 func c19NewSession(flavour string, caps []capsT) *c19Session {
 	s := &c19Session{flavour: flavour, caps: caps}
 	s.kids, _ = c19NewKids(caps)
 	s.taken = make([]int, len(caps))
+	shape := c19Shape
+	c19Shape = nil
+	sum := 0
+	for _, g := range shape {
+		sum += g
+	}
+	if sum != len(s.kids) {
+		shape = nil
+	}
+	if shape == nil {
+		for range s.kids {
+			shape = append(shape, 1)
+		}
+	}
 	if flavour == "plain" {
-		rs := make([]tally.StatsReporter, len(s.kids))
-		for i, k := range s.kids {
-			rs[i] = k
+		var rs []tally.StatsReporter
+		at := 0
+		for _, g := range shape {
+			if g == 1 {
+				rs = append(rs, s.kids[at])
+			} else {
+				var inner []tally.StatsReporter
+				for _, k := range s.kids[at : at+g] {
+					inner = append(inner, k)
+				}
+				rs = append(rs, multi.NewMultiReporter(inner...))
+			}
+			at += g
 		}
 		s.plain = multi.NewMultiReporter(rs...)
 	} else {
-		rs := make([]tally.CachedStatsReporter, len(s.kids))
-		for i, k := range s.kids {
-			rs[i] = k
+		var rs []tally.CachedStatsReporter
+		at := 0
+		for _, g := range shape {
+			if g == 1 {
+				rs = append(rs, s.kids[at])
+			} else {
+				var inner []tally.CachedStatsReporter
+				for _, k := range s.kids[at : at+g] {
+					inner = append(inner, k)
+				}
+				rs = append(rs, multi.NewMultiCachedReporter(inner...))
+			}
+			at += g
 		}
 		s.cached = multi.NewMultiCachedReporter(rs...)
 	}
@@ -846,6 +886,21 @@ func suiteC19(c *Ctx) {
 		length := r.Range(20, 120)
 		if c.Thorough() && i%50 == 0 {
 			length = 400
+		}
+		if n >= 2 && r.Chance(45) {
+			// nested configuration: some children are multi reporters themselves (every position, sizes 2-4)
+			left := n
+			var shape []int
+			for left > 0 {
+				g := []int{1, 1, 2, 2, 3, 4}[r.Intn(6)]
+				if g > left {
+					g = left
+				}
+				shape = append(shape, g)
+				left -= g
+			}
+			c19Shape = shape
+			c.Cov.Hit("children.nested")
 		}
 		s := c19RunSession(c, r, fl, caps, length)
 		s.count(c)
